@@ -72,6 +72,7 @@ func (p *Pool) Get() interface{} {
 			x := st.free[i]
 			st.free = append(st.free[:i], st.free[i+1:]...)
 			w.Probes["pool-get-reused"]++
+			zsim.Acquire(x) // a recycled object: its previous user's work happens before ours
 			return x
 		}
 		if p.New != nil {
@@ -95,6 +96,7 @@ func (p *Pool) Put(x interface{}) {
 	if w := zsim.W; w != nil {
 		st := p.state(w)
 		st.free = append(st.free, x)
+		zsim.Release(x)
 		return
 	}
 	p.real.Put(x)
